@@ -21,7 +21,7 @@ func init() {
 		ID: "C18",
 		Meta: func(tier string) fw.Meta {
 			return fw.Meta{
-				Flavours: []string{"plain", "cover"},
+				Flavours: []string{"plain", "cover", "386"},
 				Blocks:   16,
 				Procs:    16,
 				Rule: "large sets (0..3000 elements per side in every size relation, 0..1000 shared elements incl. 31..34, 63..66, 127..129, 255..257) against Go maps for all binary operations, long variadic lists, Intersect, Clone, Slice, Append; exhaustive over a universe of 5 elements: every (receiver, argument) pair of the 34 operands {nil, empty non-nil, 32 subsets incl. a second empty} for Intersects/IsSubset/Equals/AddAll/RemoveAll; every receiver x every argument list of length <= 3 (<= 4 thorough) with repetitions for HasAll/HasAny/Add/Remove/New; every 0..3-operand combination and random 4..12-operand combinations for Intersect; Append into prefixes with every amount of spare capacity from 0 to len+6; Clone/Keys/Values/Range/NewSize/Slice/Append/Pop/Clear/IsEmpty/Len/Has on every operand; results checked for value, non-nilness and non-aliasing (mutating the result must not change an argument and vice versa). " +
